@@ -64,6 +64,10 @@ func FindGrouping(n Node, name string, seen map[string]bool) *Grouping {
 		v = e.FieldByName("Import")
 		if v.IsValid() {
 			for _, i := range v.Interface().([]*Import) {
+				if i.Module == nil {
+					// Not resolved (Process failed or was not called).
+					continue
+				}
 				// If the prefix matches the import statement,
 				// then search for the trimmed name in that module.
 				pname := strings.TrimPrefix(name, i.Prefix.Name+":")
@@ -78,6 +82,10 @@ func FindGrouping(n Node, name string, seen map[string]bool) *Grouping {
 		v = e.FieldByName("Include")
 		if v.IsValid() {
 			for _, i := range v.Interface().([]*Include) {
+				if i.Module == nil {
+					// Not resolved (Process failed or was not called).
+					continue
+				}
 				if seen[i.Module.Name] {
 					// Prevent infinite loops in the case that we have already looked at
 					// this submodule. This occurs where submodules have include statements
